@@ -133,6 +133,11 @@ def make_P(ctx, cfg, universes, nontrivial, rule, quick_beh=150, thorough_beh=30
     elif gen == "sim":
         g = {"module": "Gen_CalcEnv", "cfg": "Gen_sim.cfg", "simulate": {"num": quick_beh, "depth": 45},
              "thorough_simulate": {"num": thorough_beh, "depth": 45}, "timeout": 900, "thorough_timeout": 2400}
+    elif gen == "win":
+        # flush windows of 2-4 deliveries over 3 abstract keys, bound to groups of related catalogue keys
+        g = {"module": "Gen_CalcEnv", "cfg": "Gen_win.cfg", "simulate": {"num": quick_beh, "depth": 65},
+             "thorough_simulate": {"num": thorough_beh, "depth": 65}, "timeout": 900, "thorough_timeout": 2400}
+        denv["VERIF_BIND"] = "groups"
     else:
         g = None
     return {
